@@ -558,6 +558,8 @@ impl<F: Future> Future for CancelAfter<F> {
                     self.inner = None;
                     return Poll::Ready(None);
                 }
+                // poll again after everything else had a turn, whether or not the inner future gets woken
+                cx.waker().wake_by_ref();
                 Poll::Pending
             }
         }
